@@ -1,4 +1,4 @@
-use super::{CrateTypes, Language};
+use super::{quoted_string_literal, CrateTypes, Language};
 use crate::language::SupportedLanguage;
 use crate::parser::{remove_dash_from_identifier, ParsedData};
 use crate::rust_types::{
@@ -261,8 +261,8 @@ impl Scala {
                     )?;
                     writeln!(
                         w,
-                        "\t\tval serialName: String = {:?}",
-                        v.shared().id.renamed
+                        "\t\tval serialName: String = {}",
+                        quoted_string_literal(&v.shared().id.renamed, false)
                     )?;
                     writeln!(w, "\t}}")?;
                 }
@@ -273,7 +273,7 @@ impl Scala {
                 ..
             } => {
                 for v in shared.variants.iter() {
-                    let printed_value = format!(r##"{:?}"##, &v.shared().id.renamed);
+                    let printed_value = quoted_string_literal(&v.shared().id.renamed, false);
                     self.write_comments(w, 1, &v.shared().comments)?;
 
                     let variant_name = {
